@@ -13,25 +13,26 @@ theorem upd_ne {β : Type} (f : String → β) (k k' : String) (v : β) (h : k' 
 theorem event_batch {α} (w : W α) (s : String) (row : α) : (event w s row).batch = w.batch := by
   unfold event; split <;> rfl
 
-theorem streamDatum_batch {α} (w : W α) (d : SD) : (streamDatum w d).batch = w.batch := by
-  unfold streamDatum
+theorem mergeCached_fields {α} (w : W α) (c d : SD) :
+    (mergeCached w c d).batch = w.batch ∧ (mergeCached w c d).rows = w.rows ∧ (mergeCached w c d).parts = w.parts := by
+  unfold mergeCached
   split
-  · rfl
-  · split
-    · rfl
-    · split
-      · split <;> rfl
-      · rfl
+  · split <;> exact ⟨rfl, rfl, rfl⟩
+  · exact ⟨rfl, rfl, rfl⟩
 
-theorem streamDatum_rows {α} (w : W α) (d : SD) : (streamDatum w d).rows = w.rows ∧ (streamDatum w d).parts = w.parts := by
+theorem streamDatum_fields {α} (w : W α) (d : SD) :
+    (streamDatum w d).batch = w.batch ∧ (streamDatum w d).rows = w.rows ∧ (streamDatum w d).parts = w.parts := by
   unfold streamDatum
   split
-  · exact ⟨rfl, rfl⟩
+  · exact ⟨rfl, rfl, rfl⟩
   · split
-    · exact ⟨rfl, rfl⟩
-    · split
-      · split <;> exact ⟨rfl, rfl⟩
-      · exact ⟨rfl, rfl⟩
+    · exact ⟨rfl, rfl, rfl⟩
+    · exact mergeCached_fields w _ d
+
+theorem streamDatum_batch {α} (w : W α) (d : SD) : (streamDatum w d).batch = w.batch := (streamDatum_fields w d).1
+
+theorem streamDatum_rows {α} (w : W α) (d : SD) : (streamDatum w d).rows = w.rows ∧ (streamDatum w d).parts = w.parts :=
+  (streamDatum_fields w d).2
 
 theorem event_ext {α} (w : W α) (s : String) (row : α) : (event w s row).ext = w.ext ∧ (event w s row).extW = w.extW := by
   unfold event; split <;> exact ⟨rfl, rfl⟩
@@ -53,7 +54,10 @@ theorem apply_rows {α} (w : W α) (op : Op α) (s' : String) :
   | event s row =>
     simp only [apply, rowsOf]
     rw [event_rows]
-    by_cases hs : s = s' <;> simp [hs, eq_comm]
+    by_cases hs : s' = s
+    · subst hs; simp
+    · have : ¬ s = s' := fun h => hs h.symm
+      simp [hs, this]
   | sdat d =>
     simp only [apply, rowsOf, List.append_nil]
     rw [(streamDatum_rows w d).1, (streamDatum_rows w d).2]
@@ -71,7 +75,7 @@ theorem foldl_rows {α} (s' : String) : ∀ (ops : List (Op α)) (w : W α),
   | nil => intro w; simp [rowsOf]
   | cons op r ih =>
     intro w
-    rw [List.foldl_cons, ih, apply_rows, rowsOf_cons]
+    rw [List.foldl_cons, ih, apply_rows, rowsOf_cons s' op r]
     simp [List.append_assoc]
 
 theorem stop_rows {α} (w : W α) (s : String) :
@@ -81,70 +85,66 @@ theorem stop_rows {α} (w : W α) (s : String) :
   | nil => simp
   | cons x xs => simp
 
-/-! ### partition sizes -/
+/-! ### no empty partition is ever appended -/
 
-/-- every partition written so far is full, and the cache is not yet full -/
-def SizeInv {α} (w : W α) (s : String) : Prop :=
-  (∀ p ∈ w.parts s, (p.length : Int) = max w.batch 1) ∧ ((w.rows s).length : Int) < max w.batch 1
-
-theorem event_size {α} (w : W α) (s : String) (row : α) (s' : String) (h : SizeInv w s') : SizeInv (event w s row) s' := by
-  obtain ⟨h1, h2⟩ := h
-  unfold SizeInv
-  rw [event_batch]
+theorem event_nonempty {α} (w : W α) (s : String) (row : α) (s' : String) (h : ∀ p ∈ w.parts s', p ≠ []) :
+    ∀ p ∈ (event w s row).parts s', p ≠ [] := by
   unfold event
   by_cases hs : s' = s
   · subst hs
-    simp only [flushCond, eventClears, ↓reduceIte]
     split
-    · rename_i hc
-      simp only [decide_eq_true_eq, List.length_append, List.length_cons, List.length_nil] at hc
-      simp only [upd_self]
-      refine ⟨?_, ?_⟩
-      · intro p hp
-        simp only [List.mem_append, List.mem_singleton] at hp
-        rcases hp with hp | hp
-        · exact h1 p hp
-        · subst hp
-          simp only [List.length_append, List.length_cons, List.length_nil]
-          omega
-      · simp; omega
-    · rename_i hc
-      simp only [decide_eq_true_eq, List.length_append, List.length_cons, List.length_nil] at hc
-      simp only [upd_self]
-      refine ⟨h1, ?_⟩
-      simp only [List.length_append, List.length_cons, List.length_nil]
-      omega
-  · split <;> simp only [upd_ne _ _ _ _ hs] <;> exact ⟨h1, h2⟩
+    · simp only [upd_self]
+      intro p hp
+      simp only [List.mem_append, List.mem_singleton] at hp
+      rcases hp with hp | hp
+      · exact h p hp
+      · subst hp; simp
+    · exact h
+  · split
+    · simp only [upd_ne _ _ _ _ hs]; exact h
+    · exact h
 
-theorem apply_size {α} (w : W α) (op : Op α) (s' : String) (h : SizeInv w s') : SizeInv (apply w op) s' := by
-  cases op with
-  | event s row => exact event_size w s row s' h
-  | sdat d =>
-    unfold SizeInv at h ⊢
-    simp only [apply]
-    rw [streamDatum_batch, (streamDatum_rows w d).1, (streamDatum_rows w d).2]
-    exact h
-
-theorem foldl_size {α} (s' : String) : ∀ (ops : List (Op α)) (w : W α), SizeInv w s' → SizeInv (ops.foldl apply w) s' := by
+theorem foldl_nonempty {α} (s' : String) : ∀ (ops : List (Op α)) (w : W α), (∀ p ∈ w.parts s', p ≠ []) →
+    ∀ p ∈ (ops.foldl apply w).parts s', p ≠ [] := by
   intro ops
   induction ops with
   | nil => intro w h; exact h
-  | cons op r ih => intro w h; exact ih _ (apply_size w op s' h)
+  | cons op r ih =>
+    intro w h
+    rw [List.foldl_cons]
+    apply ih
+    cases op with
+    | event s row => exact event_nonempty w s row s' h
+    | sdat d => simp only [apply]; rw [(streamDatum_rows w d).2]; exact h
+
+theorem apply_batch {α} (w : W α) (op : Op α) : (apply w op).batch = w.batch := by
+  cases op with
+  | event s row => exact event_batch w s row
+  | sdat d => exact streamDatum_batch w d
+
+theorem foldl_batch {α} : ∀ (ops : List (Op α)) (w : W α), (ops.foldl apply w).batch = w.batch := by
+  intro ops
+  induction ops with
+  | nil => intro w; rfl
+  | cons op r ih => intro w; rw [List.foldl_cons, ih, apply_batch]
 
 /-! ### stream datums -/
 
 theorem concat2_width {c d m : SD} (h : concat2 c d = some m) : m.width = c.width + d.width := by
   unfold concat2 at h
-  split at h
-  · simp at h
-  · split at h
-    · simp at h
-    · rename_i hc
-      simp only [bne_iff_ne, ne_eq, Decidable.not_not] at hc
-      simp only [Option.some.injEq] at h
-      subst h
-      simp only [SD.width]
-      by_cases hle : c.i0 ≤ d.i0 <;> simp only [hle, ↓reduceIte] at hc ⊢ <;> omega
+  by_cases hd : (c.desc != d.desc) = true
+  · simp [hd] at h
+  · by_cases hle : c.i0 ≤ d.i0
+    · simp only [hd, Bool.false_eq_true, ↓reduceIte, hle, bne_iff_ne, ne_eq, ite_not, Option.ite_none_right_eq_some,
+        Option.some.injEq] at h
+      obtain ⟨h1, h2⟩ := h
+      subst h2
+      simp only [SD.width]; omega
+    · simp only [hd, Bool.false_eq_true, ↓reduceIte, hle, bne_iff_ne, ne_eq, ite_not, Option.ite_none_right_eq_some,
+        Option.some.injEq] at h
+      obtain ⟨h1, h2⟩ := h
+      subst h2
+      simp only [SD.width]; omega
 
 def cachedWidth (o : Option SD) : Int :=
   match o with
@@ -154,39 +154,45 @@ def cachedWidth (o : Option SD) : Int :=
 theorem totalWidth_append (a b : List SD) : totalWidth (a ++ b) = totalWidth a + totalWidth b := by
   simp [totalWidth]
 
+theorem mergeCached_width {α} (w : W α) (c d : SD) (hc : w.ext d.sres = some c) (k : String) :
+    totalWidth ((mergeCached w c d).extW k) + cachedWidth ((mergeCached w c d).ext k) =
+      totalWidth (w.extW k) + cachedWidth (w.ext k) + (if k = d.sres then d.width else 0) := by
+  unfold mergeCached
+  by_cases hk : k = d.sres
+  · subst hk
+    simp only [↓reduceIte, hc]
+    cases hm : concat2 c d with
+    | none =>
+      simp only [upd_self, totalWidth_append, cachedWidth]
+      simp [totalWidth]; omega
+    | some m =>
+      simp only
+      have hw := concat2_width hm
+      split
+      · simp only [upd_self, totalWidth_append, cachedWidth]
+        simp [totalWidth]; omega
+      · simp only [upd_self, cachedWidth]; omega
+  · simp only [hk, ↓reduceIte, Int.add_zero]
+    split
+    · split <;> simp [upd_ne _ _ _ _ hk]
+    · simp [upd_ne _ _ _ _ hk]
+
 /-- one stream datum: written + cached width grows by exactly this datum's width (for its stream resource) -/
 theorem streamDatum_width {α} (w : W α) (d : SD) (k : String) :
     totalWidth ((streamDatum w d).extW k) + cachedWidth ((streamDatum w d).ext k) =
       totalWidth (w.extW k) + cachedWidth (w.ext k) + (if k = d.sres then d.width else 0) := by
   unfold streamDatum
-  by_cases hk : k = d.sres
-  · subst hk
-    simp only [↓reduceIte]
-    split
-    · simp [upd_self, totalWidth_append, totalWidth]
-    · cases hc : w.ext d.sres with
-      | none => simp [upd_self, cachedWidth]
-      | some c =>
-        simp only
-        cases hm : concat2 c d with
-        | none =>
-          simp only [upd_self, totalWidth_append, cachedWidth]
-          simp [totalWidth]; omega
-        | some m =>
-          simp only
-          have hw := concat2_width hm
-          split
-          · simp only [upd_self, totalWidth_append, cachedWidth]
-            simp [totalWidth]; omega
-          · simp only [upd_self, cachedWidth]; omega
-  · simp only [hk, ↓reduceIte, Int.add_zero]
-    split
-    · simp [upd_ne _ _ _ _ hk]
-    · split
-      · simp [upd_ne _ _ _ _ hk]
-      · split
-        · split <;> simp [upd_ne _ _ _ _ hk]
-        · simp [upd_ne _ _ _ _ hk]
+  split
+  · by_cases hk : k = d.sres
+    · subst hk; simp [upd_self, totalWidth]; omega
+    · simp [upd_ne _ _ _ _ hk, hk]
+  · cases hc : w.ext d.sres with
+    | none =>
+      simp only
+      by_cases hk : k = d.sres
+      · subst hk; simp [upd_self, cachedWidth, hc]
+      · simp [upd_ne _ _ _ _ hk, hk]
+    | some c => exact mergeCached_width w c d hc k
 
 theorem sdatsOf_cons {α} (k : String) (op : Op α) (r : List (Op α)) : sdatsOf k (op :: r) = sdatsOf k [op] ++ sdatsOf k r := by
   cases op with
@@ -217,7 +223,7 @@ theorem foldl_width {α} (k : String) : ∀ (ops : List (Op α)) (w : W α),
   | nil => intro w; simp [sdatsOf, totalWidth]
   | cons op r ih =>
     intro w
-    rw [List.foldl_cons, ih, apply_width, sdatsOf_cons, totalWidth_append]
+    rw [List.foldl_cons, ih, apply_width, sdatsOf_cons k op r, totalWidth_append]
     omega
 
 theorem stop_width {α} (w : W α) (k : String) :
